@@ -42,20 +42,35 @@ TRUSTED = [
     "Name/Velocity-is-set, the Avatar/coarse-location bookkeeping, the viewer object cache hit path (_lookup_cache_entry "
     "returns None; ProxySettings.ALLOW_AUTO_REQUEST_OBJECTS is switched off so no timers are started), session teardown "
     "(ClientWorldObjectManager.clear), region handle changes of a registered region, materials, ObjectPropertiesFamily",
-    "PROVED in Coq for all histories (Qed, closed; Props/C14.v, Obj/SceneGraphProofs.v, SceneGraphTree.v, SceneGraphKill.v): "
-    "(a) the index clause of the statement (Idx: lookup by local id and by full id agree and hold the same objects) and (b) the "
-    "children clause (c in children(p) <-> c tracked, parent_id c = lid p, same region, p tracked; duplicate-free) and the orphan "
-    "clause (c in orphans[p] <-> c tracked, parent_id c = p <> 0, p untracked; duplicate-free) as step-preserved invariants for "
-    "EVERY event kind: ObjectUpdate/ObjectUpdateCompressed (new object with orphan adoption, re-parenting, local-id change, region "
-    "move), terse, cached, properties, KillObject with its full cascade (descendants die, avatars survive as orphans, unknown id "
-    "with orphans), region teardown, track region, the three request kinds; hence after every history; (c) cancellation of "
-    "pending requests on region teardown.  Hypotheses (input_tree_ok): updates name a tracked region; no local id given to two "
-    "live objects; an object is not (re)indexed under a local id equal to the parent id it carries at that moment (1-cycle; for "
-    "a local-id change inside a region this is the OLD parent id - an extra hypothesis beyond the statement, a proof gap that the "
-    "correspondence exercises)",
-    "NOT PROVED in Coq (checked by the correspondence + impl-level oracle only): absence of raises (that no step returns None, "
-    "incl. that the kill fuel suffices under acyclicity), the Parent back-link, cancellation of requests on kill and resolution "
-    "on update, the reference-set refinement (abs (run h) = reference h)",
+    "PROVED in Coq for all histories (Qed, closed; Props/C14.v, Obj/SceneGraphProofs.v, SceneGraphTree.v, SceneGraphKill.v, "
+    "SceneGraphFut.v, SceneGraphNoErr.v, SceneGraphRef.v): (1) the index clause of the statement (Idx: lookup by local id and by "
+    "full id agree and hold the same objects), (2) the children clause (c in children(p) <-> c tracked, parent_id c = lid p, same "
+    "region, p tracked; duplicate-free), the orphan clause (c in orphans[p] <-> c tracked, parent_id c = p <> 0, p untracked; "
+    "duplicate-free) and the Parent back-link (obj.Parent is the tracked object with local id obj.ParentID in obj's region, None "
+    "otherwise; it names exactly the object whose children list holds obj) as step-preserved invariants for EVERY event kind: "
+    "ObjectUpdate/ObjectUpdateCompressed (new object with orphan adoption, re-parenting, local-id change, region move), terse, "
+    "cached, properties, KillObject with its full cascade (descendants die, avatars survive as orphans, unknown id with orphans), "
+    "region teardown, track region, the three request kinds; hence after every history; (3) pending requests: unconditionally no "
+    "request is dropped, re-keyed or reopened and a done request is never touched again; KillObject only cancels and leaves no "
+    "pending request for the killed id nor for any object removed by the cascade; ObjectUpdate(Compressed) resolves every pending "
+    "UPDATE request of its (region, local id) with that object and cancels those under the id the object moved away from; "
+    "property / terse updates that change something resolve; teardown cancels; history-level forms; (4) no handler raises: "
+    "under Idx, Tree, the input assumptions and acyclic parent links (a ranking of (region, local id) keys with every object "
+    "strictly below its ParentID key) every step returns Some - no assert of _parent_object/track_object/untrack_object fires, no "
+    "KeyError/AttributeError-on-None, and the kill fuel (tracked objects + 1) suffices; hence such a history runs to its end with "
+    "Idx and Tree; (5) towards the reference set: objects enter the lookup only by being announced into a tracked region, leave "
+    "only through a KillObject of their region or the teardown of their region, an announced object is tracked afterwards, "
+    "KillObject removes the object it names, teardown removes exactly the region's objects, every tracked object was announced.  "
+    "Hypotheses (input_tree_ok): updates name a tracked region; no local id given to two live objects; an object is not "
+    "(re)indexed under a local id equal to the parent id it carries at that moment (1-cycle; for a local-id change inside a region "
+    "this is the OLD parent id - an extra hypothesis beyond the statement, a proof gap that the correspondence exercises: the code "
+    "passes through a state where the object is its own child); for (4) also: KillObject/teardown/track/request name a registered "
+    "region (the message comes from a known circuit)",
+    "NOT PROVED in Coq (checked by the correspondence + impl-level oracle only): the exact reference-set equality "
+    "(abs (run h) = reference h): that KillObject removes exactly the named object and its descendants through non-avatar links "
+    "and nothing else (proved only: it removes objects of its region only, removes the named object, survivors keep local id / "
+    "full id / region); the local-id-change case new local id = old parent id (all clauses); that a reply which changes "
+    "no property leaves its request pending is the code's behaviour and is modelled, not judged",
     "the full statement is false of the faithful model outside the hypothesis 'updates name a tracked region': witness proved as "
     "C14_untracked_region_refuted and recorded as known finding c14-untracked-region; the histories of the three repaired "
     "defects (0de120a, 7f5640d, 4cb9d70) are kept in corpus/C14/findings.txt and must pass",
